@@ -248,19 +248,65 @@ fn decl_options(d: &Sexp) -> String {
     }
 }
 
-/// `(ddl TY (opts o*))`: what CREATE TABLE catalogues for the column.
-fn run_ddl(rt: &tokio::runtime::Runtime, l: &[Sexp]) -> String {
+/// The catalogued constraint flags of every column of `table`: `n<0|1>p<0|1>` per column.
+fn catalog_flags(db: &Database, table: &str) -> String {
+    let cat = db.verif_catalog();
+    match cat.get_table_by_name(table) {
+        None => "no-table".into(),
+        Some(t) => {
+            let mut cols: Vec<_> = t.all_columns().into_iter().collect();
+            cols.sort_by_key(|(id, _)| *id);
+            cols.iter()
+                .map(|(_, c)| format!("{}:n{}p{}", dt_name(&c.data_type()), c.is_nullable() as u8, c.is_primary() as u8))
+                .collect::<Vec<_>>()
+                .join(",")
+        }
+    }
+}
+
+/// `(ddl TY (opts o*))`: what CREATE TABLE catalogues for the column (memory engine);
+/// `(ddlre TY (opts o*))`: the same on a disk database, read back after shutdown + reopen.
+fn run_ddl(rt: &tokio::runtime::Runtime, l: &[Sexp], reopen: Option<(&str, usize)>) -> String {
     let sql = format!("create table t(c0 {}{})", sql_ty(l[1].as_atom().unwrap()), decl_options(&l[2]));
+    let dir = reopen.map(|(wd, k)| std::path::Path::new(wd).join(format!("db{k}")));
+    if let Some(d) = &dir {
+        let _ = std::fs::remove_dir_all(d);
+    }
     let r = catch(|| {
         rt.block_on(async {
-            let db = Database::new_in_memory();
-            db.run(&sql).await.map_err(|e| e.to_string())?;
+            let db = match (&dir, reopen) {
+                (Some(d), Some((_, k))) => {
+                    let (db, need_shutdown) = open_db("diskre", d, k).await;
+                    db.run(&sql).await.map_err(|e| e.to_string())?;
+                    if need_shutdown {
+                        db.shutdown().await.ok();
+                    }
+                    drop(db);
+                    let (db, need_shutdown) = open_db("diskre", d, k).await;
+                    let cat = db.verif_catalog();
+                    let t = cat.get_table_by_name("t").ok_or("no table after reopen")?;
+                    let c = t.get_column_by_id(0).ok_or("no column after reopen")?;
+                    let ans = format!("ok nullable={} primary={}", c.is_nullable(), c.is_primary());
+                    if need_shutdown {
+                        db.shutdown().await.ok();
+                    }
+                    return Ok::<_, String>(ans);
+                }
+                _ => {
+                    let db = Database::new_in_memory();
+                    db.run(&sql).await.map_err(|e| e.to_string())?;
+                    db
+                }
+            };
             let cat = db.verif_catalog();
             let t = cat.get_table_by_name("t").ok_or("no table")?;
             let c = t.get_column_by_id(0).ok_or("no column")?;
             Ok::<_, String>(format!("ok nullable={} primary={}", c.is_nullable(), c.is_primary()))
         })
     });
+    if let Some(d) = &dir {
+        let _ = std::fs::remove_dir_all(d);
+    }
     match r {
         Err(p) => format!("panic {}", p.chars().take(60).collect::<String>()),
         Ok(Err(_)) => "err".into(),
@@ -296,7 +342,7 @@ fn show_val(v: &DataValue) -> String {
 /// hook without background tasks (the stock `new_on_disk` + `shutdown` pair costs ~1 s of timer
 /// waits per database); every 60th request index uses the stock constructor.
 async fn open_db(engine: &str, dir: &std::path::Path, k: usize) -> (Database, bool) {
-    if engine == "disk" {
+    if engine == "disk" || engine == "diskre" {
         let mut o = SecondaryStorageOptions::default_for_cli();
         o.path = dir.to_path_buf();
         if k % 60 == 0 {
@@ -334,11 +380,26 @@ fn run_ins(rt: &tokio::runtime::Runtime, l: &[Sexp], workdir: &str, k: usize) ->
     let _ = std::fs::remove_dir_all(&dir);
     let r = catch(|| {
         rt.block_on(async {
-            let (db, need_shutdown) = open_db(&engine, &dir, k).await;
+            let (mut db, mut need_shutdown) = open_db(&engine, &dir, k).await;
             db.run(&format!("create table t({})", coldefs(decls))).await.map_err(|e| format!("create: {e}"))?;
             let mut failed = 0;
-            let target = if let Some(sd) = src_decls {
+            if let Some(sd) = src_decls {
                 db.run(&format!("create table s({})", coldefs(sd))).await.map_err(|e| format!("create s: {e}"))?;
+            }
+            // `diskre`: shutdown + reopen between the CREATE TABLEs and the INSERTs; the catalogued
+            // column types and constraint flags must be the same afterwards
+            let mut reopen_note = String::new();
+            if engine == "diskre" {
+                let before = format!("t[{}] s[{}]", catalog_flags(&db, "t"), catalog_flags(&db, "s"));
+                if need_shutdown {
+                    db.shutdown().await.ok();
+                }
+                drop(db);
+                (db, need_shutdown) = open_db(&engine, &dir, k).await;
+                let after = format!("t[{}] s[{}]", catalog_flags(&db, "t"), catalog_flags(&db, "s"));
+                reopen_note = if before == after { " reopen=same".to_string() } else { format!(" reopen=changed:{}->{}", before.replace(' ', "_"), after.replace(' ', "_")) };
+            }
+            let target = if src_decls.is_some() {
                 "s".to_string()
             } else if let Some(cs) = cols {
                 format!("t({})", cs.iter().map(|c| format!("c{}", c.as_atom().unwrap())).collect::<Vec<_>>().join(", "))
@@ -378,7 +439,7 @@ fn run_ins(rt: &tokio::runtime::Runtime, l: &[Sexp], workdir: &str, k: usize) ->
                 db.shutdown().await.ok();
             }
             rows_out.sort();
-            Ok::<_, String>(format!("ok {} ;; variants=({}) failed={}", rows_out.join(" "), variants.join(" "), failed))
+            Ok::<_, String>(format!("ok {} ;; variants=({}) failed={}{}", rows_out.join(" "), variants.join(" "), failed, reopen_note))
         })
     });
     let _ = std::fs::remove_dir_all(&dir);
@@ -604,7 +665,7 @@ fn gen_ins(r: &mut Rng) -> String {
         .collect();
     // the same scenario on both engines (adjacent requests; the check also compares the pair)
     format!(
-        "(ins mem (decls {d}) (rows {r}))\n(ins disk (decls {d}) (rows {r}))",
+        "(ins mem (decls {d}) (rows {r}))\n(ins disk (decls {d}) (rows {r}))\n(ins diskre (decls {d}) (rows {r}))",
         d = decls.join(" "),
         r = rows.join(" ")
     )
@@ -681,7 +742,7 @@ fn gen_inscols(r: &mut Rng) -> String {
     let d = decls.iter().map(|(t, n)| format!("({t} {n})")).collect::<Vec<_>>().join(" ");
     let c = cols.iter().map(|c| c.to_string()).collect::<Vec<_>>().join(" ");
     let rws = rows.join(" ");
-    format!("(inscols mem (decls {d}) (cols {c}) (rows {rws}))\n(inscols disk (decls {d}) (cols {c}) (rows {rws}))")
+    format!("(inscols mem (decls {d}) (cols {c}) (rows {rws}))\n(inscols disk (decls {d}) (cols {c}) (rows {rws}))\n(inscols diskre (decls {d}) (cols {c}) (rows {rws}))")
 }
 
 /// rows into `s`, then `INSERT INTO t SELECT * FROM s` (column types may differ: implicit casts)
@@ -701,7 +762,7 @@ fn gen_inssel(r: &mut Rng) -> String {
     let s_ = src.iter().map(|(t, n)| format!("({t} {n})")).collect::<Vec<_>>().join(" ");
     let d = decls.iter().map(|(t, n)| format!("({t} {n})")).collect::<Vec<_>>().join(" ");
     let rws = rows.join(" ");
-    format!("(inssel mem (src {s_}) (decls {d}) (rows {rws}))\n(inssel disk (src {s_}) (decls {d}) (rows {rws}))")
+    format!("(inssel mem (src {s_}) (decls {d}) (rows {rws}))\n(inssel disk (src {s_}) (decls {d}) (rows {rws}))\n(inssel diskre (src {s_}) (decls {d}) (rows {rws}))")
 }
 
 fn gen_sql(r: &mut Rng) -> String {
@@ -783,7 +844,10 @@ fn main() {
             let mut lists: Vec<Vec<&str>> = vec![vec![]];
             for a in opts { lists.push(vec![a]); for b in opts { lists.push(vec![a, b]); for c in opts { lists.push(vec![a, b, c]); } } }
             for l in &lists {
-                out += &format!("(ddl {} (opts {}))\n", r.pick(&["INT", "STRING", "BOOLEAN", "BIGINT"]), l.join(" "));
+                let ty = *r.pick(&["INT", "STRING", "BOOLEAN", "BIGINT"]);
+                out += &format!("(ddl {ty} (opts {}))\n", l.join(" "));
+                // the same on a disk database, read back after shutdown + reopen
+                out += &format!("(ddlre {ty} (opts {}))\n", l.join(" "));
             }
             for _ in 0..n {
                 let line = match r.below(22) {
@@ -823,7 +887,11 @@ fn main() {
                         let mut e = RecExpr::default();
                         match catch(|| { add_p(&l[1], &mut e); e }) { Ok(e) => static_type(&e), Err(p) => format!("harness-error {p}") }
                     }
-                    "ddl" => run_ddl(&rt, l),
+                    "ddl" => run_ddl(&rt, l, None),
+                    "ddlre" => {
+                        let wd = args.get(3).cloned().or_else(|| std::env::var("C16_WORK").ok()).expect("workdir");
+                        run_ddl(&rt, l, Some((&wd, k)))
+                    }
                     "ins" | "inscols" | "inssel" | "selcast" => {
                         let wd = args.get(3).cloned().or_else(|| std::env::var("C16_WORK").ok()).expect("workdir");
                         run_ins(&rt, l, &wd, k)
